@@ -469,6 +469,70 @@ func Run[C any](t *testing.T, p Prop[C]) {
 	})
 }
 
+// RunConcurrent draws batches of cases and runs the (sequential, pure) check
+// of every case of a batch from several goroutines at once.  It is meant for
+// -race binaries: library functions that look pure may share hidden state
+// (pools, package-level buffers, in-place edits of their inputs), which only
+// shows when calls overlap.  The kind is p.Kind+".conc".
+func RunConcurrent[C any](t *testing.T, p Prop[C], base, batch, goroutines int) {
+	t.Helper()
+	kind := p.Kind + ".conc"
+	run := func(cases []C) error {
+		errs := make([]error, goroutines)
+		var start, done sync.WaitGroup
+		start.Add(1)
+		for g := 0; g < goroutines; g++ {
+			done.Add(1)
+			go func(g int) {
+				defer done.Done()
+				start.Wait()
+				for i := g; i < len(cases); i += goroutines {
+					if err := Guard(func() error { return p.Check(cases[i]) }); err != nil && errs[g] == nil {
+						errs[g] = err
+					}
+				}
+			}(g)
+		}
+		start.Done()
+		done.Wait()
+		for _, e := range errs {
+			if e != nil {
+				return fmt.Errorf("with %d cases checked concurrently from %d goroutines: %w", len(cases), goroutines, e)
+			}
+		}
+		return nil
+	}
+	replayers[kind] = func(raw json.RawMessage) error {
+		var cases []C
+		if err := json.Unmarshal(raw, &cases); err != nil {
+			return fmt.Errorf("decoding case: %w", err)
+		}
+		for i := 0; i < 20; i++ {
+			if err := run(cases); err != nil {
+				return err
+			}
+		}
+		return nil
+	}
+	SetRapid(kind, N(base))
+	rapid.Check(t, func(rt *rapid.T) {
+		cases := make([]C, batch)
+		for i := range cases {
+			cases[i] = p.Gen(rt)
+		}
+		CurrentJSON(kind, cases)
+		Eval(kind)
+		if err := run(cases); err != nil {
+			RecordFailure(kind, cases, err)
+			rt.Fatalf("%s: %v", kind, err)
+		}
+		NonTrivialStr(kind, fmt.Sprintf("%v", cases))
+	})
+}
+
+// Variant returns the build variant name of this process.
+func Variant() string { return os.Getenv("VP_VARIANT") }
+
 // SetRapid configures rapid's flags for the next rapid.Check call.
 func SetRapid(kind string, checks int) {
 	_ = flag.Set("rapid.checks", strconv.Itoa(checks))
